@@ -82,7 +82,7 @@ type endpoint struct {
 // of endpoints; the diffusion mode is symbolic. The segment is delivered exactly once, to the
 // receiver registered for (protocol id, direction), payload intact -- or the muxer reports an
 // error and stops: zero-length payload, unregistered endpoint, direction not allowed by the
-// diffusion mode.
+// diffusion mode. Unregistering one role of a protocol leaves the other role's receiver in place.
 func ReadLoop() {
 	plen := sym.Param("payload")
 	hdr := sym.Bytes("hdr", 8)
@@ -98,6 +98,18 @@ func ReadLoop() {
 		if sym.Bool("registered" + string(rune('0'+i))) {
 			e.ch = muxer.VerifRegister(m, e.id, e.role)
 		}
+	}
+	// one role of a full-duplex protocol may be unregistered again (what Protocol.Stop does)
+	// while the other role stays registered
+	if unreg := sym.U8("unregister"); eps[0].ch != nil && eps[1].ch != nil && unreg != 0 {
+		sym.Assume(unreg <= 2)
+		gone := eps[0]
+		if unreg == 2 {
+			gone = eps[1]
+		}
+		m.UnregisterProtocol(gone.id, gone.role)
+		gone.ch = nil
+		sym.Reach("unregistered-one-role")
 	}
 	muxer.VerifReadLoop(m)
 
